@@ -602,6 +602,14 @@ func query(input OmegaInput) (output OmegaOutput) {
 		// according GP, no need to check the service exists => it should in ServiceAccountState
 		pvmLogger.Debugf("host-call function \"query\" serviceID : %d not in ServiceAccount state", serviceID)
 	}
+	if z > math.MaxUint32 {
+		// a length outside N_L is the length of no entry: (h, z) not in K((x_s)_l)
+		input.VM.Registers[7], input.VM.Registers[8] = NONE, 0
+		return OmegaOutput{
+			ExitReason: ExitContinue,
+			Addition:   input.Addition,
+		}
+	}
 	lookupKey := types.LookupMetaMapkey{Hash: types.OpaqueHash(h), Length: types.U32(z)} // x_bold{s}_l
 	var timeSlotSet types.TimeSlotSet
 	lookupTimeSlotSet := getLookupItemFromKeyVal(input.Addition.ResultContextX.StorageKeyVal, serviceID, lookupKey)
@@ -776,6 +784,14 @@ func forget(input OmegaInput) (output OmegaOutput) {
 	timeslot := input.Addition.Timeslot
 	// x_bold{s} = (x_u)_d[x_s] check service exists
 	if a, accountExists := input.Addition.ResultContextX.PartialState.ServiceAccounts[serviceID]; accountExists {
+		if z > math.MaxUint32 {
+			// a length outside N_L is the length of no entry: (h, z) not in K((x_s)_l)
+			input.VM.Registers[7] = HUH
+			return OmegaOutput{
+				ExitReason: ExitContinue,
+				Addition:   input.Addition,
+			}
+		}
 		lookupKey := types.LookupMetaMapkey{Hash: types.OpaqueHash(h), Length: types.U32(z)} // x_bold{s}_l
 		// check lookupItem from key-val
 		var timeSlotSet types.TimeSlotSet
